@@ -1,6 +1,6 @@
 (* C07 — Bounded oscillators stay inside their documented range. Statements only (exact arithmetic: slack 0). *)
 From Coq Require Import Reals.
-From TA Require Import Base Model XR Proofs.Ring Proofs.XBase Proofs.Wiring Proofs.Osc Proofs.XEma Proofs.XFast Proofs.XRsi Proofs.XEr.
+From TA Require Import Base Model XR Proofs.Ring Proofs.XBase Proofs.Wiring Proofs.Osc Proofs.XEma Proofs.XFast Proofs.XRsi Proofs.XEr Proofs.XMfi.
 Open Scope R_scope.
 
 (* FastStochastic on finite prices: every output is a finite value in [0,100] (it is the formula on the extremes of
@@ -28,3 +28,8 @@ Proof. exact slow_range. Qed.
    (triangle inequality along the window path) *)
 Theorem C07_er_range : forall p h x, plen (er_path p h x) <> 0 -> exists r, er_spec p h x = Fin r /\ 0 <= r <= 1.
 Proof. exact er_range. Qed.
+
+(* MoneyFlowIndex: whenever the window carries some money flow (non-zero denominator) the index is a finite value in [0,100] *)
+Theorem C07_mfi_range : forall p b0 bs, let w := lastn p (flows (tpr b0) bs) in
+  possum w + negsum w <> 0 -> exists r, mfi_spec p b0 bs = Fin r /\ 0 <= r <= 100.
+Proof. exact mfi_range. Qed.
